@@ -268,8 +268,14 @@ ArgTuples(op) ==
     [] OTHER -> {}
 
 EqTypes == IF Thorough THEN VT ELSE PrimTypes \cup VT1 \cup TakeN(VT2, 5)
+\* values of the same shape that differ from x in exactly one member (the pairs on which equality is decided by one comparison)
+Differ1(x, v) ==
+  x.st = "k" /\ v.st = "k" /\
+  CASE x.ty.k \in {"list", "tuple"} -> Len(Elems(x)) = Len(Elems(v)) /\ Cardinality({i \in 1..Len(Elems(x)) : Elems(x)[i] # Elems(v)[i]}) = 1
+    [] x.ty.k \in {"map", "object"} -> DOMAIN Attrs(x) = DOMAIN Attrs(v) /\ Cardinality({n \in DOMAIN Attrs(x) : Attrs(x)[n] # Attrs(v)[n]}) = 1
+    [] OTHER -> FALSE
 EqPairs(t) == LET A == AllVals(t) IN
-  UNION {{<<x, y>> : y \in {x} \cup TakeN(A, IF Thorough THEN 6 ELSE 3)} : x \in A}
+  UNION {{<<x, y>> : y \in {x} \cup TakeN(A, IF Thorough THEN 6 ELSE 3) \cup TakeN({v \in A : Differ1(x, v)}, IF Thorough THEN 4 ELSE 2)} : x \in A}
 
 \* ill-typed operand tuples (C02.RejectsIllTyped) and documented "False" cases
 IllTyped(op) ==
